@@ -12,7 +12,7 @@
    the key was allocated again and its new segment created before the job's io half ran).  That step is
    the open finding `readd-during-pageout`; C08_accounting_refuted is its witness. *)
 From Coq Require Import List NArith ZArith String Bool.
-From EKW Require Import Shm.Lottery Shm.Manager Shm.ManagerProofs.
+From EKW Require Import Shm.Lottery Shm.Manager Shm.ManagerProofs Shm.ManagerConc Shm.ManagerConcProofs.
 From EKW Require Shm.ManagerCheck.   (* not used here: keeps the correspondence checker's .vo in step with the model *)
 Import ListNotations.
 Open Scope string_scope.
@@ -74,6 +74,73 @@ Theorem C08_accounting_refuted :
                        cap < resident (dsets (fst (step s (Add k size now)))).
 Proof. exact accounting_refuted. Qed.
 
+(* (4) How the store comes by its capacity.  `start configured avail` is Manager.__init__ for a server started with
+   `configured` (None / 0: not configured) on a /dev/shm that offers `avail`: a setting larger than what is available is trimmed,
+   and capacity and free space BOTH start at the trimmed value, so that everything above holds with capacity <= avail. *)
+Theorem C08_configured_capacity : forall configured avail ops,
+  0 <= avail -> (forall c, configured = Some c -> 0 <= c) -> race_free (start configured avail) ops = true ->
+  let s := exec (start configured avail) ops in
+  capacity s = configure configured avail /\ capacity s <= avail /\
+  free s = capacity s - resident (dsets s) /\ 0 <= free s /\ resident (dsets s) <= avail /\
+  free (start configured avail) = capacity (start configured avail).
+Proof. exact configured_accounting. Qed.
+
+Theorem C08_configure_trims : forall configured avail,
+  0 <= avail -> (forall c, configured = Some c -> 0 <= c) ->
+  0 <= configure configured avail <= avail /\
+  (forall c, configured = Some c -> c <> 0 -> configure configured avail <= c) /\
+  (forall c, configured = Some c -> c <> 0 -> c <= avail -> configure configured avail = c) /\
+  (configured = None \/ configured = Some 0 -> configure configured avail = avail).
+Proof. exact configure_bounds. Qed.
+
+(* (5) Finer than `step` (Shm/ManagerConc.v): the completion callbacks run on the Disk threads and can be delayed at each
+   acquisition of pageout_one while the main thread serves requests and other callbacks run.  A callback is a sequence of
+   parts (`FCbPart j` = the code up to the next `with self.pageout_one:`); `FA o` is a whole step of the model above.
+   (5a) run one after the other, the parts of a callback ARE the callback of `step` ... *)
+Theorem C08_callback_parts_compose : forall fs j jb ok,
+  lookup j (mid fs) = None -> find_job j (jobs (base fs)) = Some jb -> j_phase jb = CbPending ok ->
+  cb_finish 3 j (fst (cb_part j fs)) = mkF (fst (job_cb j (base fs))) (mid fs) /\
+  snd (cb_part j fs) = snd (job_cb j (base fs)).
+Proof. exact cb_parts_compose. Qed.
+
+(* ... and a history of whole steps is the same history in both models *)
+Theorem C08_whole_step_histories_agree : forall ops s,
+  frun (mkF s []) (map FA ops) = (fst (run s ops), mkF (snd (run s ops)) []).
+Proof. intros ops s. apply frun_atomic. reflexivity. Qed.
+
+(* (5b) the accounting with completions in flight.  `pending (mid fs)` = the sizes of the datasets whose successful page-out has
+   set the status to on_disk but has not yet returned the space (the callback waits for the lock).  At every instant
+       free = capacity - resident - pending,
+   so the reported free space never exceeds capacity - resident, resident + pending fits the capacity, and when no callback is
+   in flight the equation of (1) is exact.  `fsafe_run` = no step is the race of (3), and the callbacks that are split are
+   those of successful page-outs (the others run in one piece: FA (JobCb j)).
+   FULL statement: every callback split at every lock acquisition; the failure paths go through Manager.purge, whose unlink
+   and whose credit are tied together by the segment being gone, not by a lock -- compared with the implementation on every
+   fine-grained history of the harness (check_fcase), not proved. *)
+Theorem C08_accounting_with_completions_in_flight_partial : forall cap ops,
+  0 <= cap -> fsafe_run (finit cap) ops = true ->
+  let fs := fexec (finit cap) ops in
+  let s := base fs in
+  capacity s = cap /\
+  free s = cap - resident (dsets s) - pending (mid fs) /\ 0 <= free s /\ 0 <= pending (mid fs) /\
+  resident (dsets s) + pending (mid fs) <= cap /\
+  free s <= cap - resident (dsets s) /\
+  (mid fs = [] -> free s = cap - resident (dsets s)).
+Proof. exact fine_accounting. Qed.
+
+(* (5c) never granted early, whatever is in flight *)
+Theorem C08_never_granted_early_in_flight_partial : forall cap ops k size now,
+  0 <= cap -> fsafe_run (finit cap) ops = true ->
+  let fs := fexec (finit cap) ops in
+  forall k', snd (fstep fs (FA (Add k size now))) = RGranted k' ->
+    resident (dsets (base fs)) + pending (mid fs) + Z.of_N size <= cap.
+Proof. exact fine_add_never_early. Qed.
+
+(* (5d) every step of such a history keeps the invariant (Inv of the store whose capacity is reduced by what is pending) *)
+Theorem C08_every_fine_step_keeps_accounting : forall fs o,
+  FInv fs -> fsafe fs o = true -> FInv (fst (fstep fs o)) /\ capacity (base (fst (fstep fs o))) = capacity (base fs).
+Proof. exact fstep_inv. Qed.
+
 (* ------------------------------------------------------------------ non-vacuity *)
 (* capacity 4, three keys: two datasets fill the store, a third allocation waits and triggers a page-out,
    is retried between the halves of the job (still wait) and after it (granted); a get of the paged-out
@@ -125,8 +192,64 @@ Example C08_accounting_refuted_witness :
   (let s := exec (init 10) readd_witness in free s = 10 /\ resident (dsets s) = 6).
 Proof. vm_compute. repeat split; reflexivity. Qed.
 
+(* configured with 16 on a /dev/shm that offers 10: an allocation of 11 is refused, 8 is granted, another 8 waits *)
+Example C08_configured_capacity_nonvacuous :
+  configure (Some 16) 10 = 10 /\ configure None 10 = 10 /\ configure (Some 4) 10 = 4 /\
+  race_free (start (Some 16) 10) [Add 0%N 11%N 1; Add 1%N 8%N 2; Add 2%N 8%N 3] = true /\
+  map fst (fst (run (start (Some 16) 10) [Add 0%N 11%N 1; Add 1%N 8%N 2; Add 2%N 8%N 3])) =
+    [(RErr "capacity exceeded", 10); (RGranted 1%N, 2); (RErr "wait", 2)].
+Proof. vm_compute. repeat split; reflexivity. Qed.
+
+(* capacity 10: k1 (6) is paged out to make room for k2 (8); its completion callback has set the status and waits for the lock
+   (pending 6, free 4) when an allocation of exactly the 4 free bytes is granted; the callback then returns the 6 bytes: free 6.
+   Two callbacks of one round in flight together: both credits arrive. *)
+Definition ex_fine : list fop := [
+  FA (Add 1%N 6%N 1); FA (Write 1%N [1;2;3;4;5;6]%N); FA (Close 1%N None); FA (Add 2%N 8%N 2);
+  FA (JobIo 0%N false); FA (JobUnlink 0%N); FCbPart 0%N; FA (Add 3%N 4%N 3); FCbPart 0%N; FA (Add 2%N 8%N 4) ].
+Definition ex_fine2 : list fop := [
+  FA (Add 1%N 3%N 1); FA (Write 1%N [1;2;3]%N); FA (Close 1%N None); FA (Add 2%N 3%N 2); FA (Write 2%N [4;5;6]%N); FA (Close 2%N None);
+  FA (Add 3%N 10%N 3); FA (JobIo 0%N false); FA (JobIo 1%N false); FA (JobUnlink 1%N); FA (JobUnlink 0%N);
+  FCbPart 0%N; FCbPart 1%N; FCbPart 0%N; FCbPart 1%N; FA (Add 3%N 10%N 4) ].
+
+Example C08_accounting_with_completions_in_flight_nonvacuous :
+  fsafe_run (finit 10) ex_fine = true /\ fsafe_run (finit 10) ex_fine2 = true /\
+  (let fs := fexec (finit 10) (firstn 7 ex_fine) in
+   pending (mid fs) = 6 /\ free (base fs) = 4 /\ resident (dsets (base fs)) = 0 /\
+   snd (fstep fs (FA (Add 3%N 4%N 3))) = RGranted 3%N /\ snd (fstep fs (FA (Add 3%N 5%N 3))) = RErr "wait") /\
+  (let fs := fexec (finit 10) (firstn 9 ex_fine) in mid fs = [] /\ free (base fs) = 6 /\ resident (dsets (base fs)) = 4) /\
+  map fst (fst (frun (finit 10) ex_fine)) =
+    [(RGranted 1%N, 4); (RWrote true, 4); (ROk, 4); (RErr "wait", 4); (RJob true, 4); (RJob true, 4); (RJob true, 4);
+     (RGranted 3%N, 0); (RJob true, 6); (RErr "wait", 6)] /\
+  (let fs := fexec (finit 10) (firstn 13 ex_fine2) in pending (mid fs) = 6 /\ free (base fs) = 4) /\
+  (let fs := fexec (finit 10) ex_fine2 in mid fs = [] /\ free (base fs) = 0 /\ resident (dsets (base fs)) = 10).
+Proof. vm_compute. repeat split; reflexivity. Qed.
+
+Example C08_callback_parts_compose_nonvacuous :
+  let fs := fexec (finit 10) (firstn 6 ex_fine) in
+  lookup 0%N (mid fs) = None /\ (exists jb, find_job 0%N (jobs (base fs)) = Some jb /\ j_phase jb = CbPending true) /\
+  cb_finish 3 0%N (fst (cb_part 0%N fs)) = mkF (fst (job_cb 0%N (base fs))) [].
+Proof. vm_compute. split; [reflexivity|]. split; [eexists; split; reflexivity|reflexivity]. Qed.
+
+(* the model tells the code from a completion that computes the new free space BEFORE it takes the lock and stores it under the
+   lock: the allocation granted in between is forgotten, free space over-reports by its size *)
+Definition stale_credit (snapshot : Z) (sz : N) (s : state) : state := count_down (with_free (snapshot + Z.of_N sz) s).
+Example C08_credit_is_computed_under_the_lock :
+  let fs := fexec (finit 10) (firstn 7 ex_fine) in
+  let snapshot := free (base fs) in
+  let fs' := fst (fstep fs (FA (Add 3%N 4%N 3))) in
+  (let s := base (fst (fstep fs' (FCbPart 0%N))) in free s = 10 - resident (dsets s)) /\
+  (let s := stale_credit snapshot 6%N (base fs') in free s = 10 /\ resident (dsets s) = 4).
+Proof. vm_compute. repeat split; reflexivity. Qed.
+
 Print Assumptions C08_accounting_partial.
 Print Assumptions C08_every_other_step_keeps_accounting.
 Print Assumptions C08_free_space_reported.
 Print Assumptions C08_never_granted_early_partial.
 Print Assumptions C08_accounting_refuted.
+Print Assumptions C08_configured_capacity.
+Print Assumptions C08_configure_trims.
+Print Assumptions C08_callback_parts_compose.
+Print Assumptions C08_whole_step_histories_agree.
+Print Assumptions C08_accounting_with_completions_in_flight_partial.
+Print Assumptions C08_never_granted_early_in_flight_partial.
+Print Assumptions C08_every_fine_step_keeps_accounting.
